@@ -1493,7 +1493,14 @@ func (f *Frame) execConvert(st *State, x *ssa.Convert) Value {
 			if p.Cell != nil {
 				return p
 			}
-			return VPtr{Addr: p.Addr, Key: "", Raw: true}
+			r := VPtr{Addr: p.Addr, Key: "", Raw: true, Orig: p.Orig, OrigT: p.OrigT}
+			if p.Key != "" && isPtrType(from) {
+				switch from.Underlying().(*types.Pointer).Elem().Underlying().(type) {
+				case *types.Slice:
+					r.Orig, r.OrigT = p.Key, from.Underlying().(*types.Pointer).Elem()
+				}
+			}
+			return r
 		case VT:
 			return v
 		}
@@ -1711,6 +1718,15 @@ func (f *Frame) execFieldAddr(st *State, x *ssa.FieldAddr) Value {
 	case VPtr:
 		if p.Cell != nil {
 			return VPtr{Cell: p.Cell, Off: p.Off + off, Dyn: p.Dyn}
+		}
+		if p.Orig != "" && p.Key == "" && sizeOf(ft) == 8 && s.NumFields() == 3 && sizeOf(pt) == 24 {
+			// header view of a slice-typed field: word 0, 1, 2 are the field's pointer, length, capacity
+			if _, isSlice := p.OrigT.Underlying().(*types.Slice); isSlice {
+				suffix := map[int64]string{0: ".ptr", 8: ".len", 16: ".cap"}[off]
+				if suffix != "" {
+					return VPtr{Addr: p.Addr, Key: p.Orig + suffix}
+				}
+			}
 		}
 		return VPtr{Addr: B.Add(p.Addr, B.Int(off)), Key: key, Raw: p.Raw}
 	case VT:
